@@ -68,7 +68,9 @@ class After(Condition):
         return True  # noqa: B901
 
     def __subscribe__(self, waiter: Coroutine, interrupt: CoreInterrupt):
-        self._ensure_trigger()
+        # a trigger is only needed (and can only be scheduled) while the date is still ahead
+        if not self:
+            self._ensure_trigger()
         super().__subscribe__(waiter, interrupt)
 
     def __repr__(self):
